@@ -3,7 +3,7 @@ import ast
 import importlib.util
 import os
 
-from ..core import AnalysisError, U, atoms, bind_call, path_facts, paths_of, positional_params
+from ..core import AnalysisError, U, atoms, bind_call, loop_body_paths, path_facts, paths_of, positional_params, strip_identity
 from ..registries import qmodules
 
 TITLE = "quantize() swaps exactly the eligible modules and each computes its float twin"
@@ -87,9 +87,13 @@ def run(chk):
             bound = {}
             for i, a in enumerate(e.args):
                 if i < len(sig):
-                    bound[sig[i]] = U(a)
+                    bound[sig[i]] = U(strip_identity(a))
             for k in e.keywords:
-                bound[k.arg] = U(k.value)
+                if k.arg is None and isinstance(k.value, ast.Dict) and all(isinstance(x, ast.Constant) for x in k.value.keys):
+                    for kk, vv in zip(k.value.keys, k.value.values):
+                        bound[kk.value] = U(strip_identity(vv))
+                elif k.arg is not None:
+                    bound[k.arg] = U(strip_identity(k.value))
             for prm in sig:
                 want = SPECIAL.get(prm, f"module.{prm}").replace("module", modp)
                 got = bound.get(prm)
@@ -265,7 +269,11 @@ def walk_rule(chk):
         n += 1
         f = path_facts(p)
         sa = [ef[1] for ef in p.effects if ef[0] == "expr" and isinstance(ef[1], ast.Call) and U(ef[1].func) == "setattr"]
-        single = f.get(f"len({nm}.split('.')) == 1")
+        parts = f"len({nm}.split('.'))"
+        single = None
+        for txt, val in ((f"{parts} == 1", True), (f"{parts} < 2", True), (f"{parts} <= 1", True), (f"{parts} > 1", False), (f"{parts} >= 2", False)):
+            if f.get(txt) is not None:
+                single = f.get(txt) is val
         if len(sa) != 1:
             chk.bad("C08.R5", f"{mi2.rel}:{p.end[2]}", "set_module_by_name", "setattr count", f"set_module_by_name performs {len(sa)} setattr on a path", "any replacement")
             continue
@@ -278,9 +286,29 @@ def walk_rule(chk):
     chk.floor("C08.R5", n, 2, "set_module_by_name paths")
     # quantize_module
     mi3, qmf = repo.func("quantize_module")
-    src = U(qmf)
-    ok = "for cls in _QMODULE_TABLE:" in src and "if isinstance(module, cls):" in src and "qcls, qparams = _QMODULE_TABLE[cls]" in src and "if name in kwargs:" in src and "module_kwargs[name] = kwargs[name]" in src and "return qcls.from_module(module, **module_kwargs)" in src
-    chk.require("C08.R5", f"{mi3.rel}:{qmf.lineno}", ok, "quantize_module: first registered class the module is an instance of; accepted kwargs forwarded by name to from_module", "quantize_module", "quantize_module shape", "a registered module class is not quantized or loses its configuration")
+    modp = positional_params(qmf)[0]
+    kwp = qmf.args.kwarg.arg if qmf.args.kwarg else None
+    loops3 = [n for n in qmf.body if isinstance(n, ast.For)]
+    ok = None
+    if len(loops3) == 1 and isinstance(loops3[0].target, ast.Name) and U(loops3[0].iter) in ("_QMODULE_TABLE", "_QMODULE_TABLE.keys()", "list(_QMODULE_TABLE)") and kwp:
+        cv = loops3[0].target.id
+        for bp in loop_body_paths(qmf, loops3[0]):
+            fb = path_facts(bp)
+            elem = None
+            for k_ in fb:
+                if k_.startswith(f"isinstance({modp}, ") and fb[k_] is True:
+                    elem = k_[len(f"isinstance({modp}, "):-1]
+            if bp.end and bp.end[0] == "return" and elem is not None:
+                e3 = bp.end[1]
+                if isinstance(e3, ast.Call) and isinstance(e3.func, ast.Attribute) and e3.func.attr == "from_module" and U(e3.func.value) == f"_QMODULE_TABLE[{elem}][0]" and [U(a) for a in e3.args] == [modp]:
+                    kws = [k for k in e3.keywords if k.arg is None]
+                    txt = U(qmf)
+                    filt = f"in {kwp}" in txt and f"{kwp}[" in txt
+                    ok = len(kws) == 1 and filt
+    if ok is None:
+        chk.unknown("C08.R5", f"{mi3.rel}:{qmf.lineno}", "quantize_module: dispatch over the module table not in a recognised form")
+    else:
+        chk.require("C08.R5", f"{mi3.rel}:{qmf.lineno}", ok, "quantize_module: first registered class the module is an instance of; accepted kwargs forwarded by name to from_module", "quantize_module", "quantize_module shape", "a registered module class is not quantized or loses its configuration")
 
 
 def recursive_walk(chk, mi, q):
